@@ -254,6 +254,32 @@ int main(void) {
       if (REF_SUCCESS != ref_search_distance3(v, v + 3, v + 6, v + 9, &d)) { fputs("failure\n", out); continue; }
       h_pf(out, d);
       fputc('\n', out);
+    } else if (0 == strcmp(op, "bspheren") && h_nw >= 4 && (h_nw - 1) % 3 == 0 && h_nw <= 1 + 3 * 27 &&
+               valid_fs(1, h_nw - 1)) {
+      /* ref_node_bounding_sphere: the same arithmetic through a REF_NODE and a node index list */
+      int n = (h_nw - 1) / 3, i, k;
+      REF_GRID grid = NULL;
+      REF_INT nodes[27], node;
+      double c[3], r;
+      REF_STATUS st = REF_SUCCESS;
+      if (!h_mpi) st = ref_mpi_create(&h_mpi);
+      if (REF_SUCCESS == st) st = ref_grid_create(&grid, h_mpi);
+      for (i = 0; REF_SUCCESS == st && i < n; i++) {
+        st = ref_node_add(ref_grid_node(grid), i, &node);
+        if (REF_SUCCESS != st) break;
+        for (k = 0; k < 3; k++) ref_node_xyz(ref_grid_node(grid), k, node) = h_f(h_w[1 + 3 * i + k]);
+        nodes[n - 1 - i] = node; /* index list in reverse order of creation */
+      }
+      if (REF_SUCCESS == st) st = ref_node_bounding_sphere(ref_grid_node(grid), nodes, n, c, &r);
+      if (REF_SUCCESS != st) { fprintf(out, "%s\n", h_status(st)); }
+      else {
+        h_pf(out, c[0]); fputc(' ', out);
+        h_pf(out, c[1]); fputc(' ', out);
+        h_pf(out, c[2]); fputc(' ', out);
+        h_pf(out, r);
+        fputc('\n', out);
+      }
+      if (grid) ref_grid_free(grid);
     } else if (0 == strcmp(op, "bsphere") && h_nw >= 4 && (h_nw - 1) % 3 == 0 && valid_fs(1, h_nw - 1)) {
       int n = (h_nw - 1) / 3, i;
       double *v = (double *)malloc(sizeof(double) * 3 * (size_t)n), c[3], r;
